@@ -27,8 +27,9 @@ class C08(vlib.Spec):
             "one insert and one other op; distinct = distinct case JSON")
 
     def coverage_extra(self, cases, results):
-        exh = [c for c in cases if c.get("src") == "exh"]
-        d = {"exhaustive_pairs_of_tries": len(exh)}
+        exh = [c for c in cases if c.get("src") == "exh" and c.get("k") == "ght"]
+        d = {"exhaustive_pairs_of_tries": len(exh),
+             "exhaustive_colt_forests": len([c for c in cases if c.get("src") == "exh" and c.get("k") == "colt"])}
         if exh:
             d["exhaustive_scope"] = ("all pairs of tries over {0,1}^arity: every subset for shapes k1v1/k2v0/k0v2, "
                                      "subsets of size <= 2 for k2v1/k1v2; cmp both ways, ==, is_bot, join, merge + flag")
